@@ -301,6 +301,7 @@ fn do_request(env: &WorkerEnv, scn: &Scn, req: &Req, thread: usize, idx: usize, 
                         env: envs,
                         env_remove: vec![],
                         timeout: Duration::from_secs(20),
+                        stdout_to: if req.fs_fault.as_deref() == Some("stdout-dev-full") { Some(PathBuf::from("/dev/full")) } else { None },
                     },
                 );
                 r.class_only = true;
@@ -391,7 +392,12 @@ impl Engine for C07 {
                 3 => Doc::from_str(&format!(
                     "<svg><rect xy=\"{{{{randint(0, 99)}}}} {{{{randint(0, 99)}}}}\" wh=\"{{{{randint(1, 9)}}}}\" text=\"{{{{random()}}}}\"/><circle cxy=\"^@br\" r=\"{{{{randint(1, 5)}}}}\"/></svg>"
                 )),
-                4 => Doc::from_str(""),
+                4 => Doc::from_str(if w.chance(1, 2) {
+                    ""
+                } else {
+                    // a fragment: one line, no root element, no trailing newline
+                    *w.pick(&["<rect wh=\"3\" text=\"x\"/>", "<g><circle r=\"2\"/><rect xy=\"^|h\" wh=\"1\"/></g>", "<text xy=\"1 1\">frag</text>"])
+                }),
                 6 => Doc::from_str(&docgen::leak_probe_doc(&mut w)),
                 7 | 8 => Doc::from_str(&docgen::stateful_doc(&mut w)),
                 5 if damage => Doc(vec![b'<', b's', b'v', b'g', b'>', 0xff, b'<', b'/', b's', b'v', b'g', b'>']),
@@ -472,6 +478,9 @@ impl Engine for C07 {
                     if !damage {
                         r.wplan.flush_err = false;
                     }
+                }
+                if fe == "cli-proc-stdio" && damage && f.chance(1, 2) {
+                    r.fs_fault = Some("stdout-dev-full".to_string());
                 }
                 if fe.starts_with("cli") && fe != "cli-proc-stdio" {
                     if f.chance(2, 3) {
@@ -729,7 +738,7 @@ impl Engine for C07 {
             if let Some(ff) = &r.req.fs_fault {
                 res.stats.fault(&format!("fs.{ff}"));
                 // a full device only fails a write that writes something
-                let nothing_to_write = ff == "out-dev-full" && matches!(g, Outcome::Ok(b) if b.is_empty());
+                let nothing_to_write = (ff == "out-dev-full" || ff == "stdout-dev-full") && matches!(g, Outcome::Ok(b) if b.is_empty());
                 if !r.outcome.is_err() && !nothing_to_write {
                     res.violation(
                         "damage/fs-fault-not-reported",
@@ -738,7 +747,7 @@ impl Engine for C07 {
                     );
                 }
                 if let Some(pre) = &r.req.out_pre {
-                    if ff != "outdir-missing" && ff != "out-dev-full" {
+                    if ff != "outdir-missing" && ff != "out-dev-full" && ff != "stdout-dev-full" {
                         res.stats.probe("failing_request_with_existing_output");
                         if r.out_after.as_deref() != Some(sentinel(pre).as_slice()) {
                             res.violation(
